@@ -48,6 +48,9 @@ public:
     void *alloc(std::size_t sz) {
         if (sz > _capacity) {
             ::operator delete (_ptr);
+            //if operator new throws, the storage must be left empty (not with a dangling block)
+            _ptr = nullptr;
+            _capacity = 0;
             _ptr = ::operator new(sz);
             _capacity = sz;
         }
@@ -159,7 +162,13 @@ public:
             p = ::operator new(sz+sizeof(reusable_storage_mtsafe **));
             owner = nullptr;
         } else {
-            p = reusable_storage::alloc(sz+sizeof(reusable_storage_mtsafe **));
+            try {
+                p = reusable_storage::alloc(sz+sizeof(reusable_storage_mtsafe **));
+            } catch (...) {
+                //no frame will live in the block: give it back
+                _busy.store(false, std::memory_order_release);
+                throw;
+            }
             owner = this;
         }
         //the trailer tells dealloc which path to take: owner of the shared block, or nullptr for a heap block
